@@ -3,8 +3,10 @@ package props
 import (
 	"bytes"
 	"fmt"
+	"io"
 	"os"
 	"path/filepath"
+	"strings"
 
 	carv2 "github.com/ipld/go-car/v2"
 
@@ -14,41 +16,636 @@ import (
 )
 
 type C10Case struct {
-	Kind  string   `json:"kind"` // wrap, extract, replace
+	Kind  string   `json:"kind"` // wrap, extract, replace, replace-seq, foreign
 	Roots string   `json:"roots"`
 	Seq   []string `json:"seq"`
+	Many  int      `json:"many,omitempty"` // Seq = kit.ManyNames(Many)
 	// wrap
-	Codec string `json:"codec,omitempty"`
-	SID   bool   `json:"storeid,omitempty"`
+	Codec   string `json:"codec,omitempty"`
+	SID     bool   `json:"storeid,omitempty"`
+	Src     string `json:"src,omitempty"`     // "" = *bytes.Reader, file = *os.File, plain1/plain1000/plaineof = bare io.ReadSeeker, path = WrapV1File
+	Dst     string `json:"dst,omitempty"`     // "" = *bytes.Buffer, plain = bare io.Writer, file = *os.File
+	ZeroEOF bool   `json:"zeroeof,omitempty"` // ZeroLengthSectionAsEOF passed
+	PadOpts bool   `json:"padopts,omitempty"` // UseDataPadding(7), UseIndexPadding(3) passed (WrapV1 documents "no padding")
+	Tail    string `json:"tail,omitempty"`    // bytes after the last section: z1, z5 (zeros), zsec (0x00 then a section)
 	// extract
 	DataPad  uint64 `json:"dp,omitempty"`
+	DPBig    bool   `json:"dpbig,omitempty"` // data padding = len(payload)+200 (source and destination ranges of an in-place copy are disjoint)
 	IndexPad uint64 `json:"ip,omitempty"`
 	NoIndex  bool   `json:"noindex,omitempty"`
-	Dest     string `json:"dest,omitempty"` // absent, larger, smaller, same
+	Dest     string `json:"dest,omitempty"`     // absent, larger, smaller, same, hardlink, dotpath, symlink
+	IdxCodec string `json:"idxcodec,omitempty"` // "" = multihash-sorted, sorted
+	Full     bool   `json:"full,omitempty"`     // FullyIndexed characteristic set (index then covers identity CIDs)
 	// replace
-	V2       bool   `json:"v2,omitempty"`
-	NewRoots string `json:"newroots,omitempty"`
+	V2       bool     `json:"v2,omitempty"`
+	NewRoots string   `json:"newroots,omitempty"`
+	MaxHdr   string   `json:"maxhdr,omitempty"` // "", below (current header body length - 1), total (length prefix + body)
+	Steps    []string `json:"steps,omitempty"`  // replace-seq: root lists applied one after the other to the same file
+	// foreign (inputs outside "valid": only "an error must leave the file untouched")
+	What string `json:"what,omitempty"`
 }
 
 var c10RootSets = map[string][]string{
 	"nil": nil, "empty": {}, "a": {"a"}, "b": {"b"}, "a'": {"a'"}, "a0": {"a0"}, "s": {"s"}, "i": {"i"},
 	"ab": {"a", "b"}, "ba": {"b", "a"}, "aa": {"a", "a"}, "a0b": {"a0", "b"}, "abc": {"a", "b", "c"},
+	// identity-CID root lists whose headers have the same total length although the number of
+	// roots or the per-root lengths differ (I<n><c> = identity CID with an n-byte digest of c)
+	"I3I3": {"I3x", "I3y"}, "I14": {"I14x"}, // 22 bytes of roots: two roots vs one
+	"I3I5": {"I3x", "I5y"}, "I4I4": {"I4x", "I4y"}, // same count, different per-root lengths
+	"I19": {"I19x"}, "I3I9": {"I3x", "I9y"}, // one root with a two-byte CBOR length head vs two short ones
 }
-var c10RootOrder = []string{"a", "b", "a'", "a0", "s", "i", "ab", "ba", "aa", "a0b", "abc", "empty", "nil"}
+var c10RootOrder = []string{"a", "b", "a'", "a0", "s", "i", "ab", "ba", "aa", "a0b", "abc", "empty", "nil",
+	"I3I3", "I14", "I3I5", "I4I4", "I19", "I3I9"}
+
+func c10RootRaw(n string) []byte {
+	if strings.HasPrefix(n, "I") {
+		var l int
+		var ch byte
+		if _, err := fmt.Sscanf(n[1:], "%d%c", &l, &ch); err != nil {
+			panic("bad identity root name " + n)
+		}
+		return refcar.CIDv1(refcar.CodecRaw, refcar.MhIdentity, bytes.Repeat([]byte{ch}, l))
+	}
+	return kit.B(n).Raw
+}
 
 func c10Roots(name string) ([][]byte, bool) {
 	if name == "nil" {
 		return nil, true
 	}
+	names, ok := c10RootSets[name]
+	if !ok {
+		panic("unknown root list " + name)
+	}
 	out := [][]byte{}
-	for _, n := range c10RootSets[name] {
-		out = append(out, kit.B(n).Raw)
+	for _, n := range names {
+		out = append(out, c10RootRaw(n))
 	}
 	return out, false
 }
 
+func c10Tail(name string) []byte {
+	switch name {
+	case "":
+		return nil
+	case "z1":
+		return []byte{0}
+	case "z5":
+		return []byte{0, 0, 0, 0, 0}
+	case "zsec":
+		return append([]byte{0}, refcar.EncodeSection(kit.B("b").Ref())...)
+	}
+	panic("unknown tail " + name)
+}
+
+// c10DupDigest reports whether two records fall into the same bucket with the same digest: the
+// order inside such a run is not fixed by the format, so index bytes are compared normalised.
+func c10DupDigest(recs []refcar.IndexRecord, codec uint64) bool {
+	seen := map[string]bool{}
+	for _, r := range recs {
+		k := string(r.Digest)
+		if codec == refcar.CodecMhIndexSorted {
+			k = fmt.Sprintf("%d|%s", r.MhCode, k)
+		}
+		if seen[k] {
+			return true
+		}
+		seen[k] = true
+	}
+	return false
+}
+
+// c10IdxEqual compares serialized index bytes: exactly when the canonical form is unique,
+// after normalising the order of equal-digest runs otherwise.
+func c10IdxEqual(got, want []byte, dup bool) (bool, error) {
+	if bytes.Equal(got, want) {
+		return true, nil
+	}
+	if !dup {
+		return false, nil
+	}
+	norm, _, err := normaliseIndexBytes(got)
+	if err != nil {
+		return false, err
+	}
+	return bytes.Equal(norm, want), nil
+}
+
+func c10ReadFile(x *kit.Ctx, p, sig string) ([]byte, bool) {
+	b, err := os.ReadFile(p)
+	if err != nil {
+		x.Fail(sig, "cannot read %s back: %v", filepath.Base(p), err)
+		return nil, false
+	}
+	return b, true
+}
+
+func c10MustWrite(p string, b []byte) {
+	if err := os.WriteFile(p, b, 0o644); err != nil {
+		panic(fmt.Sprintf("harness: cannot write %s: %v", p, err))
+	}
+}
+
+// c10Windows checks Reader.DataReader / Reader.IndexReader of a CARv2 (file bytes `file`, also on
+// disk at path when path != "") against the expected payload and index bytes.
+func c10Windows(x *kit.Ctx, tag string, file []byte, path string, payload []byte, dataOff uint64, idxRaw []byte) {
+	type opened struct {
+		name string
+		r    *carv2.Reader
+		done func()
+	}
+	var rs []opened
+	if r, err := carv2.NewReader(bytes.NewReader(file)); err != nil {
+		x.Fail("c10:window-open:"+tag, "NewReader(bytes.Reader) fails on a valid CARv2: %v", err)
+	} else {
+		rs = append(rs, opened{"NewReader(bytes.Reader)", r, func() {}})
+	}
+	if path != "" {
+		if r, err := carv2.OpenReader(path); err != nil {
+			x.Fail("c10:window-open:"+tag, "OpenReader fails on a valid CARv2: %v", err)
+		} else {
+			rs = append(rs, opened{"OpenReader", r, func() { r.Close() }})
+		}
+		if f, err := os.Open(path); err != nil {
+			panic(err)
+		} else if r, err := carv2.NewReader(f); err != nil {
+			f.Close()
+			x.Fail("c10:window-open:"+tag, "NewReader(*os.File) fails on a valid CARv2: %v", err)
+		} else {
+			rs = append(rs, opened{"NewReader(*os.File)", r, func() { f.Close() }})
+		}
+	}
+	for _, o := range rs {
+		func() {
+			defer o.done()
+			x.Count("window_checks", 1)
+			r := o.r
+			wantIdxOff := uint64(0)
+			if idxRaw != nil {
+				wantIdxOff = uint64(len(file) - len(idxRaw))
+			}
+			if r.Version != 2 || r.Header.DataOffset != dataOff || r.Header.DataSize != uint64(len(payload)) || r.Header.IndexOffset != wantIdxOff || r.Header.HasIndex() != (idxRaw != nil) {
+				x.Fail("c10:window-header:"+tag, "%s: version %d header %+v, want data [%d,+%d) index at %d", o.name, r.Version, r.Header, dataOff, len(payload), wantIdxOff)
+				return
+			}
+			dr, err := r.DataReader()
+			if err != nil || dr == nil {
+				x.Fail("c10:window-data-error:"+tag, "%s: DataReader: %v", o.name, err)
+				return
+			}
+			all, err := io.ReadAll(dr)
+			if err != nil || !bytes.Equal(all, payload) {
+				x.Fail("c10:window-data:"+tag, "%s: ReadAll(DataReader) = %d bytes, err %v; payload is %d bytes, equal prefix=%v", o.name, len(all), err, len(payload), bytes.HasPrefix(all, payload))
+			}
+			if end, err := dr.Seek(0, io.SeekEnd); err != nil || end != int64(len(payload)) {
+				x.Fail("c10:window-data-seekend:"+tag, "%s: DataReader.Seek(0, SeekEnd) = %d, %v; payload is %d bytes", o.name, end, err, len(payload))
+			}
+			buf := make([]byte, 10)
+			if n, err := dr.ReadAt(buf, int64(len(payload))); n != 0 || err != io.EOF {
+				x.Fail("c10:window-data-readat-end:"+tag, "%s: DataReader.ReadAt at the payload end = %d, %v; want 0, EOF (bytes %x)", o.name, n, err, buf[:n])
+			}
+			if len(payload) >= 5 {
+				n, err := dr.ReadAt(buf, int64(len(payload)-5))
+				if n != 5 || err == nil || !bytes.Equal(buf[:5], payload[len(payload)-5:]) {
+					x.Fail("c10:window-data-readat-cross:"+tag, "%s: DataReader.ReadAt(10 bytes, end-5) = %d, %v, %x; want the last 5 payload bytes and an error", o.name, n, err, buf[:n])
+				}
+			}
+			// a second window of the same Reader is independent of the first one's position
+			if dr2, err := r.DataReader(); err != nil {
+				x.Fail("c10:window-data-error:"+tag, "%s: second DataReader: %v", o.name, err)
+			} else {
+				if _, err := dr.Seek(3, io.SeekStart); err != nil {
+					x.Fail("c10:window-data-error:"+tag, "%s: DataReader.Seek(3, SeekStart): %v", o.name, err)
+				}
+				if all2, err := io.ReadAll(dr2); err != nil || !bytes.Equal(all2, payload) {
+					x.Fail("c10:window-data-second:"+tag, "%s: a second DataReader yields %d bytes, err %v; payload is %d bytes", o.name, len(all2), err, len(payload))
+				}
+				if rest, err := io.ReadAll(dr); err != nil || !bytes.Equal(rest, payload[3:]) {
+					x.Fail("c10:window-data-seek:"+tag, "%s: DataReader after Seek(3) yields %d bytes, err %v; want payload[3:] (%d bytes)", o.name, len(rest), err, len(payload)-3)
+				}
+			}
+			ir, err := r.IndexReader()
+			if err != nil {
+				x.Fail("c10:window-index-error:"+tag, "%s: IndexReader: %v", o.name, err)
+				return
+			}
+			if idxRaw == nil {
+				if ir != nil {
+					x.Fail("c10:window-index-not-nil:"+tag, "%s: IndexReader is not nil although the CARv2 has no index", o.name)
+				}
+				return
+			}
+			if ir == nil {
+				x.Fail("c10:window-index-nil:"+tag, "%s: IndexReader is nil although the CARv2 has an index", o.name)
+				return
+			}
+			ib, err := io.ReadAll(ir)
+			if err != nil {
+				x.Fail("c10:window-index:"+tag, "%s: ReadAll(IndexReader): %v", o.name, err)
+			} else if !bytes.Equal(ib, idxRaw) {
+				x.Fail("c10:window-index:"+tag, "%s: IndexReader yields %d bytes %x; the index is %d bytes %x", o.name, len(ib), clip(ib), len(idxRaw), clip(idxRaw))
+			}
+		}()
+	}
+}
+
+// c10CheckWrap is the oracle for one wrapped output: pragma ++ header(51, len(source), 51+len(source))
+// ++ source ++ index(source sections).
+func c10CheckWrap(x *kit.Ctx, cs C10Case, via string, got, source, wantIdx []byte, dup, mayBeFull bool) {
+	sig := func(what string) string {
+		if cs.Tail != "" {
+			return "c10:wrap-null-padded-" + what
+		}
+		return "c10:wrap-" + what + ":" + via
+	}
+	n := uint64(len(source))
+	if uint64(len(got)) < 51+n || !bytes.Equal(got[:11], refcar.Pragma) {
+		x.Fail(sig("malformed"), "%s output (%d bytes) is shorter than pragma+header+source (%d) or lacks the pragma", via, len(got), 51+n)
+		return
+	}
+	if !bytes.Equal(got[51:51+n], source) {
+		x.Fail(sig("payload"), "%s does not carry the %d source bytes unmodified at offset 51", via, n)
+	}
+	h := refcar.ParseV2Header(got[11:51])
+	if h.DataOffset != 51 || h.DataSize != n || h.IndexOffset != 51+n {
+		x.Fail(sig("header"), "%s header %+v does not describe the layout (source %d bytes, no padding)", via, h, n)
+	}
+	if h.CharLo != 0 || h.CharHi&^(1<<7) != 0 || (h.FullyIndexed() && !mayBeFull) {
+		x.Fail(sig("characteristics"), "%s characteristics %016x %016x: reserved bits set, or fully-indexed claimed although identity sections are not indexed", via, h.CharHi, h.CharLo)
+	}
+	gotIdx := got[51+n:]
+	ok, err := c10IdxEqual(gotIdx, wantIdx, dup)
+	if !ok {
+		x.Fail(sig("index"), "%s index differs from the reference index of the source's sections (err %v): %x want %x", via, err, clip(gotIdx), clip(wantIdx))
+	}
+	// whole-file comparison (the field checks above are diagnostics of this one)
+	want := refcar.EncodeV2(source, 0, 0, wantIdx, h.FullyIndexed() && mayBeFull)
+	if len(got) != len(want) {
+		x.Fail(sig("length"), "%s output is %d bytes want %d", via, len(got), len(want))
+	} else if !dup && !bytes.Equal(got, want) {
+		x.Fail(sig("bytes"), "%s output differs from pragma ++ header ++ source ++ index", via)
+	} else if dup && !bytes.Equal(got[:51+n], want[:51+n]) {
+		x.Fail(sig("bytes"), "%s output differs from pragma ++ header ++ source before the index", via)
+	}
+	// and the strict decoder agrees (padding bytes, index well-formed, nothing trailing)
+	if _, err := refcar.DecodeFile(got, cs.Tail != ""); err != nil {
+		x.Fail(sig("malformed"), "%s output malformed: %v", via, err)
+	}
+}
+
+func c10Wrap(cs C10Case, x *kit.Ctx, payload []byte, pl *refcar.Payload) {
+	source := append(append([]byte{}, payload...), c10Tail(cs.Tail)...)
+	o := drv.Opts{Codec: cs.Codec, StoreID: cs.SID, ZeroEOF: cs.ZeroEOF}
+	if cs.PadOpts {
+		o.DataPad, o.IndexPad = 7, 3
+	}
+	codec := codecNum(o)
+	recs := refcar.RecordsOf(pl, cs.SID)
+	wantIdx := refcar.EncodeIndex(codec, recs)
+	dup := c10DupDigest(recs, codec)
+	mayBeFull := cs.SID || len(recs) == len(pl.Sections)
+
+	srcPath := filepath.Join(x.Dir, "c10-src.car")
+	dstPath := filepath.Join(x.Dir, "c10-dst.car")
+	backPath := filepath.Join(x.Dir, "c10-back.car")
+	os.Remove(dstPath)
+	os.Remove(backPath)
+	defer os.Remove(srcPath)
+	defer os.Remove(dstPath)
+	defer os.Remove(backPath)
+
+	via := "WrapV1"
+	var got []byte
+	onDisk := false
+	if cs.Src == "path" {
+		via = "WrapV1File"
+		c10MustWrite(srcPath, source)
+		if cs.Dest == "larger" {
+			c10MustWrite(dstPath, bytes.Repeat([]byte{0xEE}, len(source)+51+len(wantIdx)+50))
+		}
+		if err := carv2.WrapV1File(srcPath, dstPath); err != nil {
+			x.Fail("c10:wrapfile-error", "WrapV1File fails on a valid CARv1: %v", err)
+			return
+		}
+		var ok bool
+		if got, ok = c10ReadFile(x, dstPath, "c10:wrapfile-no-output"); !ok {
+			return
+		}
+		onDisk = true
+		if after, ok := c10ReadFile(x, srcPath, "c10:wrap-touches-source"); ok && !bytes.Equal(after, source) {
+			x.Fail("c10:wrap-touches-source", "WrapV1File modified its source")
+		}
+	} else {
+		var src io.ReadSeeker
+		switch cs.Src {
+		case "":
+			src = bytes.NewReader(source)
+		case "plain1":
+			src = &c10PlainRS{r: bytes.NewReader(source), chunk: 1}
+		case "plain1000":
+			src = &c10PlainRS{r: bytes.NewReader(source), chunk: 1000}
+		case "plaineof":
+			src = &c10PlainRS{r: bytes.NewReader(source), eofWithData: true}
+		case "file":
+			c10MustWrite(srcPath, source)
+			f, err := os.Open(srcPath)
+			if err != nil {
+				panic(err)
+			}
+			defer f.Close()
+			src = f
+		default:
+			panic("unknown source kind " + cs.Src)
+		}
+		var dst io.Writer
+		var buf bytes.Buffer
+		var pw c10PlainW
+		var df *os.File
+		switch cs.Dst {
+		case "":
+			dst = &buf
+		case "plain":
+			dst = &pw
+		case "file":
+			f, err := os.Create(dstPath)
+			if err != nil {
+				panic(err)
+			}
+			df = f
+			dst = f
+		default:
+			panic("unknown destination kind " + cs.Dst)
+		}
+		err := carv2.WrapV1(src, dst, o.List()...)
+		if df != nil {
+			df.Close()
+		}
+		if err != nil {
+			if cs.Tail != "" {
+				x.Fail("c10:wrap-null-padded-error", "WrapV1 with ZeroLengthSectionAsEOF fails on a null-padded CARv1: %v", err)
+			} else {
+				x.Fail("c10:wrap-error", "WrapV1 fails on a valid CARv1: %v", err)
+			}
+			return
+		}
+		switch cs.Dst {
+		case "":
+			got = buf.Bytes()
+		case "plain":
+			got = pw.b.Bytes()
+		case "file":
+			var ok bool
+			if got, ok = c10ReadFile(x, dstPath, "c10:wrap-no-output"); !ok {
+				return
+			}
+			onDisk = true
+		}
+		if cs.Src == "file" {
+			if after, ok := c10ReadFile(x, srcPath, "c10:wrap-touches-source"); ok && !bytes.Equal(after, source) {
+				x.Fail("c10:wrap-touches-source", "WrapV1 modified its source file")
+			}
+		}
+	}
+	c10CheckWrap(x, cs, via, got, source, wantIdx, dup, mayBeFull)
+
+	// the windows of the wrapped archive
+	if uint64(len(got)) >= 51+uint64(len(source)) {
+		c10Windows(x, "wrapped", got, "", source, 51, got[51+len(source):])
+	}
+	// extract(wrap(x)) = x
+	if !onDisk {
+		c10MustWrite(dstPath, got)
+	}
+	if err := carv2.ExtractV1File(dstPath, backPath); err != nil {
+		x.Fail("c10:extract-wrap-error", "ExtractV1File(%s(x)) failed: %v", via, err)
+	} else if b, ok := c10ReadFile(x, backPath, "c10:extract-wrap"); ok && !bytes.Equal(b, source) {
+		x.Fail("c10:extract-wrap", "extract(wrap(x)) != x (%d bytes, x is %d bytes)", len(b), len(source))
+	}
+
+	// windows of the plain CARv1 itself (once per payload)
+	if cs.Src == "" && cs.Dst == "" && !cs.ZeroEOF && !cs.PadOpts && cs.Tail == "" && cs.Codec == "" && !cs.SID {
+		r, err := carv2.NewReader(bytes.NewReader(payload))
+		if err != nil {
+			x.Fail("c10:window-open:v1", "NewReader fails on a valid CARv1: %v", err)
+		} else {
+			if r.Version != 1 {
+				x.Fail("c10:window-header:v1", "NewReader reports version %d for a CARv1", r.Version)
+			}
+			if dr, err := r.DataReader(); err != nil || dr == nil {
+				x.Fail("c10:window-data-error:v1", "DataReader on a CARv1: %v", err)
+			} else if all, err := io.ReadAll(dr); err != nil || !bytes.Equal(all, payload) {
+				x.Fail("c10:window-data:v1", "ReadAll(DataReader) of a CARv1 = %d bytes, err %v; the file is %d bytes", len(all), err, len(payload))
+			}
+			if ir, err := r.IndexReader(); err != nil || ir != nil {
+				x.Fail("c10:window-index-not-nil:v1", "IndexReader of a CARv1 is (%v, %v), want nil", ir, err)
+			}
+		}
+	}
+}
+
+func c10Extract(cs C10Case, x *kit.Ctx, payload []byte, pl *refcar.Payload) {
+	var idx []byte
+	if !cs.NoIndex {
+		codec := uint64(refcar.CodecMhIndexSorted)
+		if cs.IdxCodec == "sorted" {
+			codec = refcar.CodecIndexSorted
+		}
+		recs := refcar.RecordsOf(pl, cs.Full)
+		idx = refcar.EncodeIndex(codec, recs)
+	}
+	dp := cs.DataPad
+	if cs.DPBig {
+		dp = uint64(len(payload)) + 200
+	}
+	file := refcar.EncodeV2(payload, dp, cs.IndexPad, idx, cs.Full)
+	src := filepath.Join(x.Dir, "c10-x-src.car")
+	dst := filepath.Join(x.Dir, "c10-x-dst.car")
+	c10MustWrite(src, file)
+	defer os.Remove(src)
+	os.Remove(dst)
+	defer os.Remove(dst)
+	shared := false // destination names the source file
+	switch cs.Dest {
+	case "absent":
+		// DataReader/IndexReader windows of this very file (once per file: Dest only varies the extraction)
+		c10Windows(x, "v2", file, src, payload, 51+dp, idx)
+	case "larger":
+		c10MustWrite(dst, bytes.Repeat([]byte{0xEE}, len(payload)+100))
+	case "smaller":
+		c10MustWrite(dst, []byte{0xEE, 0xEE, 0xEE})
+	case "same":
+		dst = src
+		shared = true
+	case "hardlink":
+		if err := os.Link(src, dst); err != nil {
+			panic(err)
+		}
+		shared = true
+	case "symlink":
+		if err := os.Symlink(src, dst); err != nil {
+			panic(err)
+		}
+		shared = true
+	case "dotpath":
+		dst = filepath.Dir(src) + string(filepath.Separator) + "." + string(filepath.Separator) + filepath.Base(src)
+		shared = true
+	default:
+		panic("unknown destination state " + cs.Dest)
+	}
+	if err := carv2.ExtractV1File(src, dst); err != nil {
+		x.Fail("c10:extract-error:"+cs.Dest, "ExtractV1File fails on a valid CARv2: %v", err)
+		if !shared {
+			if after, ok := c10ReadFile(x, src, "c10:extract-touches-source"); ok && !bytes.Equal(after, file) {
+				x.Fail("c10:extract-touches-source", "ExtractV1File failed and modified its source")
+			}
+		}
+		return
+	}
+	if got, ok := c10ReadFile(x, dst, "c10:extract-no-output:"+cs.Dest); ok && !bytes.Equal(got, payload) {
+		x.Fail("c10:extract-bytes:"+cs.Dest, "extracted %d bytes, payload is %d bytes; equal prefix=%v", len(got), len(payload), bytes.HasPrefix(got, payload))
+	}
+	if after, ok := c10ReadFile(x, src, "c10:extract-touches-source"); ok {
+		if !shared && !bytes.Equal(after, file) {
+			x.Fail("c10:extract-touches-source", "ExtractV1File modified its source")
+		}
+		if shared && !bytes.Equal(after, payload) {
+			// the destination is another name of the source: in-place conversion
+			x.Fail("c10:extract-bytes:"+cs.Dest, "in-place extraction through another name of the source left %d bytes, payload is %d bytes", len(after), len(payload))
+		}
+	}
+	if cs.Dest == "symlink" {
+		if fi, err := os.Lstat(dst); err != nil || fi.Mode()&os.ModeSymlink == 0 {
+			x.Count("symlink_replaced", 1) // not a violation: only the bytes are specified
+		}
+	}
+}
+
+// c10Replace runs one ReplaceRootsInFile call on the file at p (expected content *cur, CARv1 header
+// of root list curName at offset base) and applies the oracle; it returns the root list now in place.
+func c10Replace(x *kit.Ctx, p string, cur *[]byte, base int, curName, newName, maxHdr, step string) string {
+	curRaws, curNil := c10Roots(curName)
+	newRaws, newNil := c10Roots(newName)
+	oldHdr := refcar.EncodeHeader(curRaws, curNil)
+	newHdr := refcar.EncodeHeader(newRaws, newNil)
+	var opts []carv2.Option
+	tooLarge := false
+	switch maxHdr {
+	case "":
+	case "below":
+		body := len(refcar.EncodeHeaderBody(curRaws, curNil, 1))
+		opts = append(opts, carv2.MaxAllowedHeaderSize(uint64(body-1)))
+		tooLarge = true
+	case "total":
+		opts = append(opts, carv2.MaxAllowedHeaderSize(uint64(len(oldHdr))))
+	default:
+		panic("unknown maxhdr " + maxHdr)
+	}
+	err := carv2.ReplaceRootsInFile(p, drvCids(newRaws, newNil), opts...)
+	after, ok := c10ReadFile(x, p, "c10:replace-file-gone")
+	if !ok {
+		return curName
+	}
+	if (err != nil || len(oldHdr) != len(newHdr)) && !bytes.Equal(after, *cur) {
+		x.Fail("c10:replace-touched", "%sReplaceRootsInFile(%s -> %s) must not / did not replace (err %v) but modified the file", step, curName, newName, err)
+	}
+	switch {
+	case tooLarge:
+		if err == nil {
+			x.Fail("c10:replace-maxhdr-accepted", "%sMaxAllowedHeaderSize is below the current header size but ReplaceRootsInFile(%s -> %s) succeeded", step, curName, newName)
+		}
+		x.Outcome("refused-maxhdr")
+	case len(oldHdr) == len(newHdr):
+		want := append([]byte{}, (*cur)...)
+		copy(want[base:], newHdr)
+		if err != nil {
+			x.Fail("c10:replace-refused", "%sreplacement header (%s -> %s) has the same length (%d) but ReplaceRootsInFile failed: %v", step, curName, newName, len(newHdr), err)
+		} else if !bytes.Equal(after, want) {
+			x.Fail("c10:replace-bytes", "%safter replacement (%s -> %s) the file differs from 'only the header bytes changed'", step, curName, newName)
+		}
+		x.Outcome("replaced")
+		if err == nil {
+			*cur = want
+			return newName
+		}
+	default:
+		if err == nil {
+			x.Fail("c10:replace-accepted", "%sreplacement header (%s -> %s) length %d != current %d but ReplaceRootsInFile succeeded", step, curName, newName, len(newHdr), len(oldHdr))
+		}
+		x.Outcome("refused")
+	}
+	if err == nil {
+		// go-car accepted against the model: continue from what is on disk
+		*cur = after
+	}
+	return curName
+}
+
+func c10ReplaceFile(cs C10Case, payload []byte, pl *refcar.Payload) ([]byte, int) {
+	if !cs.V2 {
+		return payload, 0
+	}
+	idx := refcar.EncodeIndex(refcar.CodecMhIndexSorted, refcar.RecordsOf(pl, false))
+	if cs.NoIndex {
+		idx = nil
+	}
+	dp := cs.DataPad
+	if cs.DPBig {
+		dp = uint64(len(payload)) + 200
+	}
+	return refcar.EncodeV2(payload, dp, cs.IndexPad, idx, false), 51 + int(dp)
+}
+
+func c10Foreign(cs C10Case, x *kit.Ctx, payload []byte, rootRaws [][]byte, nilRoots bool, rb []refcar.Block) {
+	p := filepath.Join(x.Dir, "c10-f.car")
+	q := filepath.Join(x.Dir, "c10-f-dst.car")
+	os.Remove(q)
+	defer os.Remove(p)
+	defer os.Remove(q)
+	var file []byte
+	var err error
+	switch cs.What {
+	case "extract-v1-same", "extract-v1-absent":
+		// ExtractV1File on a CARv1: outside "any CARv2"; only "unless it returns nil the source stays as it was"
+		file = payload
+		c10MustWrite(p, file)
+		if cs.What == "extract-v1-same" {
+			err = carv2.ExtractV1File(p, p)
+		} else {
+			err = carv2.ExtractV1File(p, q)
+		}
+	case "replace-inner-v2":
+		// CARv2 whose inner header claims version 2: not a valid archive
+		body := refcar.EncodeHeaderBody(rootRaws, nilRoots, 2)
+		inner := append(refcar.PutUvarint(uint64(len(body))), body...)
+		for _, b := range rb {
+			inner = append(inner, refcar.EncodeSection(b)...)
+		}
+		file = refcar.EncodeV2(inner, cs.DataPad, 0, nil, false)
+		c10MustWrite(p, file)
+		newRaws, newNil := c10Roots(cs.NewRoots)
+		err = carv2.ReplaceRootsInFile(p, drvCids(newRaws, newNil))
+	default:
+		panic("unknown foreign case " + cs.What)
+	}
+	after, ok := c10ReadFile(x, p, "c10:foreign-file-gone:"+cs.What)
+	if !ok {
+		return
+	}
+	if err != nil {
+		x.Outcome("foreign:" + cs.What + ":error")
+		if !bytes.Equal(after, file) {
+			x.Fail("c10:foreign-touched:"+cs.What, "the call failed (%v) but modified the file", err)
+		}
+	} else {
+		x.Outcome("foreign:" + cs.What + ":nil")
+	}
+}
+
 func runC10(c any, x *kit.Ctx) {
 	cs := c.(C10Case)
+	if cs.Many > 0 {
+		cs.Seq = kit.ManyNames(cs.Many)
+	}
 	rootRaws, nilRoots := c10Roots(cs.Roots)
 	var rb []refcar.Block
 	for _, b := range kit.Bs(cs.Seq) {
@@ -61,192 +658,240 @@ func runC10(c any, x *kit.Ctx) {
 	}
 	x.Eval(1)
 	x.Transition(2)
+	key := fmt.Sprintf("%s|%d|%s", cs.Roots, cs.Many, strings.Join(cs.Seq[:min(len(cs.Seq), 8)], ","))
 	switch cs.Kind {
 	case "wrap":
-		o := drv.Opts{Codec: cs.Codec, StoreID: cs.SID}
-		codec := codecNum(o)
-		wantIdx := refcar.EncodeIndex(codec, refcar.RecordsOf(pl, cs.SID))
-		want := refcar.EncodeV2(payload, 0, 0, wantIdx, false)
-		check := func(got []byte, via string) {
-			f, err := refcar.DecodeFile(got, false)
-			if err != nil {
-				x.Fail("c10:wrap-malformed:"+via, "%s output malformed: %v", via, err)
-				return
-			}
-			if !bytes.Equal(f.PayloadRaw, payload) {
-				x.Fail("c10:wrap-payload:"+via, "%s modified the source bytes", via)
-			}
-			if f.V2.DataOffset != 51 || f.V2.DataSize != uint64(len(payload)) || f.V2.IndexOffset != 51+uint64(len(payload)) {
-				x.Fail("c10:wrap-header:"+via, "%s header %+v does not describe the layout (payload %d bytes)", via, f.V2, len(payload))
-			}
-			norm, _, err := normaliseIndexBytes(f.IndexRaw)
-			if err != nil || !bytes.Equal(norm, wantIdx) {
-				x.Fail("c10:wrap-index:"+via, "%s index differs from the reference index of the payload (err %v): %x want %x", via, err, f.IndexRaw, wantIdx)
-			}
-			if len(got) != len(want) {
-				x.Fail("c10:wrap-length:"+via, "%s output is %d bytes want %d", via, len(got), len(want))
-			}
-		}
-		var buf bytes.Buffer
-		if err := carv2.WrapV1(bytes.NewReader(payload), &buf, o.List()...); err != nil {
-			x.Fail("c10:wrap-error", "WrapV1 fails on a valid CARv1: %v", err)
-		} else {
-			check(buf.Bytes(), "WrapV1")
-		}
-		// a source with trailing null padding, wrapped with ZeroLengthSectionAsEOF: the source bytes
-		// are still carried unmodified and the header must describe all of them
-		if len(cs.Seq) <= 2 {
-			padded := append(append([]byte{}, payload...), 0, 0, 0, 0, 0)
-			oz := o
-			oz.ZeroEOF = true
-			var zb bytes.Buffer
-			if err := carv2.WrapV1(bytes.NewReader(padded), &zb, oz.List()...); err != nil {
-				x.Fail("c10:wrap-null-padded-error", "WrapV1 with ZeroLengthSectionAsEOF fails on a null-padded CARv1: %v", err)
-			} else {
-				got := zb.Bytes()
-				if len(got) < 51+len(padded) || !bytes.Equal(got[51:51+len(padded)], padded) {
-					x.Fail("c10:wrap-null-padded-payload", "WrapV1 of a null-padded source does not carry the source bytes unmodified")
-				} else {
-					h := refcar.ParseV2Header(got[11:51])
-					if h.DataOffset != 51 || h.DataSize != uint64(len(padded)) || h.IndexOffset != 51+uint64(len(padded)) {
-						x.Fail("c10:wrap-null-padded-header", "WrapV1 of a null-padded source: header %+v does not describe the %d source bytes", h, len(padded))
-					} else if norm, _, err := normaliseIndexBytes(got[h.IndexOffset:]); err != nil || !bytes.Equal(norm, wantIdx) {
-						x.Fail("c10:wrap-null-padded-index", "WrapV1 of a null-padded source: index differs from the index of the sections (err %v)", err)
-					}
-				}
-			}
-		}
-		if cs.Codec == "" && !cs.SID {
-			src := filepath.Join(x.Dir, "c10-src.car")
-			dst := filepath.Join(x.Dir, "c10-dst.car")
-			os.WriteFile(src, payload, 0o644)
-			os.WriteFile(dst, bytes.Repeat([]byte{0xEE}, len(want)+50), 0o644) // pre-existing larger destination
-			defer os.Remove(src)
-			defer os.Remove(dst)
-			if err := carv2.WrapV1File(src, dst); err != nil {
-				x.Fail("c10:wrapfile-error", "WrapV1File fails on a valid CARv1: %v", err)
-			} else {
-				got, _ := os.ReadFile(dst)
-				check(got, "WrapV1File")
-				// extract(wrap(x)) = x
-				back := filepath.Join(x.Dir, "c10-back.car")
-				defer os.Remove(back)
-				if err := carv2.ExtractV1File(dst, back); err != nil {
-					x.Fail("c10:extract-wrap-error", "ExtractV1File(WrapV1File(x)) failed: %v", err)
-				} else if b, _ := os.ReadFile(back); !bytes.Equal(b, payload) {
-					x.Fail("c10:extract-wrap", "extract(wrap(x)) != x")
-				}
-			}
-		}
-		x.State(fmt.Sprintf("wrap|%s|%x", cs.Codec, payload))
+		c10Wrap(cs, x, payload, pl)
+		x.State(fmt.Sprintf("wrap|%s|%v|%s|%s|%v|%v|%s|%s|%s", cs.Codec, cs.SID, cs.Src, cs.Dst, cs.ZeroEOF, cs.PadOpts, cs.Tail, cs.Dest, key))
 	case "extract":
-		var idx []byte
-		if !cs.NoIndex {
-			idx = refcar.EncodeIndex(refcar.CodecMhIndexSorted, refcar.RecordsOf(pl, false))
-		}
-		file := refcar.EncodeV2(payload, cs.DataPad, cs.IndexPad, idx, false)
-		src := filepath.Join(x.Dir, "c10-x-src.car")
-		dst := filepath.Join(x.Dir, "c10-x-dst.car")
-		os.WriteFile(src, file, 0o644)
-		defer os.Remove(src)
-		os.Remove(dst)
-		defer os.Remove(dst)
-		switch cs.Dest {
-		case "larger":
-			os.WriteFile(dst, bytes.Repeat([]byte{0xEE}, len(payload)+100), 0o644)
-		case "smaller":
-			os.WriteFile(dst, []byte{0xEE, 0xEE, 0xEE}, 0o644)
-		case "same":
-			dst = src
-		}
-		if err := carv2.ExtractV1File(src, dst); err != nil {
-			x.Fail("c10:extract-error:"+cs.Dest, "ExtractV1File fails on a valid CARv2: %v", err)
-			return
-		}
-		got, _ := os.ReadFile(dst)
-		if !bytes.Equal(got, payload) {
-			x.Fail("c10:extract-bytes:"+cs.Dest, "extracted %d bytes, payload is %d bytes; equal prefix=%v", len(got), len(payload), bytes.HasPrefix(got, payload))
-		}
-		if cs.Dest != "same" {
-			if after, _ := os.ReadFile(src); !bytes.Equal(after, file) {
-				x.Fail("c10:extract-touches-source", "ExtractV1File modified its source")
-			}
-		}
-		x.State(fmt.Sprintf("extract|%d|%d|%v|%s|%x", cs.DataPad, cs.IndexPad, cs.NoIndex, cs.Dest, payload))
+		c10Extract(cs, x, payload, pl)
+		x.State(fmt.Sprintf("extract|%d|%v|%d|%v|%s|%s|%v|%s", cs.DataPad, cs.DPBig, cs.IndexPad, cs.NoIndex, cs.Dest, cs.IdxCodec, cs.Full, key))
 	case "replace":
-		file := payload
-		base := 0
-		if cs.V2 {
-			idx := refcar.EncodeIndex(refcar.CodecMhIndexSorted, refcar.RecordsOf(pl, false))
-			if cs.NoIndex {
-				idx = nil
-			}
-			file = refcar.EncodeV2(payload, cs.DataPad, cs.IndexPad, idx, false)
-			base = 51 + int(cs.DataPad)
-		}
-		newRaws, newNil := c10Roots(cs.NewRoots)
-		var newCids = drvCids(newRaws, newNil)
-		oldHdr := refcar.EncodeHeader(rootRaws, nilRoots)
-		newHdr := refcar.EncodeHeader(newRaws, newNil)
+		file, base := c10ReplaceFile(cs, payload, pl)
 		p := filepath.Join(x.Dir, "c10-r.car")
-		os.WriteFile(p, file, 0o644)
+		c10MustWrite(p, file)
 		defer os.Remove(p)
-		err := carv2.ReplaceRootsInFile(p, newCids)
-		after, _ := os.ReadFile(p)
-		if len(oldHdr) == len(newHdr) {
-			want := append([]byte{}, file...)
-			copy(want[base:], newHdr)
-			if err != nil {
-				x.Fail("c10:replace-refused", "replacement header has the same length (%d) but ReplaceRootsInFile failed: %v", len(newHdr), err)
-			} else if !bytes.Equal(after, want) {
-				x.Fail("c10:replace-bytes", "after replacement the file differs from 'only the header bytes changed'")
-			}
-			x.Outcome("replaced")
-		} else {
-			if err == nil {
-				x.Fail("c10:replace-accepted", "replacement header length %d != current %d but ReplaceRootsInFile succeeded", len(newHdr), len(oldHdr))
-			}
-			if !bytes.Equal(after, file) {
-				x.Fail("c10:replace-touched", "ReplaceRootsInFile failed (%v) but modified the file", err)
-			}
-			x.Outcome("refused")
+		cur := append([]byte{}, file...)
+		c10Replace(x, p, &cur, base, cs.Roots, cs.NewRoots, cs.MaxHdr, "")
+		x.Nontrivial(fmt.Sprintf("%+v", cs))
+		x.State(fmt.Sprintf("replace|%v|%d|%v|%v|%s|%s|%s", cs.V2, cs.DataPad, cs.DPBig, cs.NoIndex, cs.NewRoots, cs.MaxHdr, key))
+	case "replace-seq":
+		file, base := c10ReplaceFile(cs, payload, pl)
+		p := filepath.Join(x.Dir, "c10-rs.car")
+		c10MustWrite(p, file)
+		defer os.Remove(p)
+		cur := append([]byte{}, file...)
+		curName := cs.Roots
+		for i, nw := range cs.Steps {
+			curName = c10Replace(x, p, &cur, base, curName, nw, "", fmt.Sprintf("step %d of %v: ", i+1, cs.Steps))
+			x.Transition(1)
 		}
 		x.Nontrivial(fmt.Sprintf("%+v", cs))
-		x.State(fmt.Sprintf("replace|%v|%s|%x", cs.V2, cs.NewRoots, file))
+		x.State(fmt.Sprintf("replace-seq|%v|%d|%v|%v|%s", cs.V2, cs.DataPad, cs.NoIndex, cs.Steps, key))
+	case "foreign":
+		c10Foreign(cs, x, payload, rootRaws, nilRoots, rb)
+		x.State(fmt.Sprintf("foreign|%s|%s|%d|%s", cs.What, cs.NewRoots, cs.DataPad, key))
+	default:
+		panic("unknown kind " + cs.Kind)
 	}
 	if len(cs.Seq) >= 1 {
-		x.Nontrivial(fmt.Sprintf("%+v", cs))
+		x.Nontrivial(fmt.Sprintf("%+v", c))
+	}
+}
+
+var (
+	c10Srcs     = []string{"", "file", "plain1", "plain1000", "plaineof"}
+	c10Dsts     = []string{"", "plain", "file"}
+	c10Tails    = []string{"z1", "z5", "zsec"}
+	c10Dests    = []string{"absent", "larger", "smaller", "same", "hardlink", "dotpath", "symlink"}
+	c10Codecs   = []string{"", "sorted"}
+	c10Bools    = []bool{false, true}
+	c10WrapRed  = [][2]string{{"", ""}, {"file", "file"}, {"plain1", "plain"}, {"plaineof", ""}, {"plain1000", "file"}}
+	c10IdxKinds = []struct {
+		codec string
+		full  bool
+	}{{"sorted", false}, {"", true}, {"sorted", true}}
+)
+
+// c10WrapFull: the whole product of the wrap dimensions for one (payload, root list).
+func c10WrapFull(emit func(any), base C10Case) {
+	base.Kind = "wrap"
+	for _, codec := range c10Codecs {
+		for _, sid := range c10Bools {
+			c := base
+			c.Codec, c.SID = codec, sid
+			for _, src := range c10Srcs {
+				for _, dst := range c10Dsts {
+					for _, z := range c10Bools {
+						for _, po := range c10Bools {
+							d := c
+							d.Src, d.Dst, d.ZeroEOF, d.PadOpts = src, dst, z, po
+							emit(d)
+						}
+					}
+				}
+				for _, tail := range c10Tails {
+					d := c
+					d.Src, d.ZeroEOF, d.Tail = src, true, tail
+					emit(d)
+				}
+			}
+		}
+	}
+	for _, dest := range []string{"absent", "larger"} {
+		c := base
+		c.Src, c.Dest = "path", dest
+		emit(c)
+	}
+}
+
+// c10WrapReduced: both codecs x identity option x 5 (source kind, destination kind) pairs x
+// ZeroLengthSectionAsEOF, padding options and two tails on one pair each, WrapV1File x 2 destination states.
+func c10WrapReduced(emit func(any), base C10Case) {
+	base.Kind = "wrap"
+	for _, codec := range c10Codecs {
+		for _, sid := range c10Bools {
+			c := base
+			c.Codec, c.SID = codec, sid
+			for _, sd := range c10WrapRed {
+				for _, z := range c10Bools {
+					d := c
+					d.Src, d.Dst, d.ZeroEOF = sd[0], sd[1], z
+					emit(d)
+				}
+			}
+			d := c
+			d.PadOpts = true
+			emit(d)
+			d = c
+			d.ZeroEOF, d.Tail = true, "z5"
+			emit(d)
+			d = c
+			d.Src, d.ZeroEOF, d.Tail = "plain1", true, "zsec"
+			emit(d)
+		}
+	}
+	for _, dest := range []string{"absent", "larger"} {
+		c := base
+		c.Src, c.Dest = "path", dest
+		emit(c)
+	}
+}
+
+type c10Pad struct {
+	dp  uint64
+	big bool
+}
+
+func c10ExtractFull(emit func(any), base C10Case) {
+	base.Kind = "extract"
+	for _, p := range []c10Pad{{0, false}, {1, false}, {7, false}, {4096, false}, {0, true}} {
+		for _, in := range []struct {
+			ip    uint64
+			noidx bool
+		}{{0, false}, {3, false}, {4096, false}, {0, true}} {
+			for _, dest := range c10Dests {
+				c := base
+				c.DataPad, c.DPBig, c.IndexPad, c.NoIndex, c.Dest = p.dp, p.big, in.ip, in.noidx, dest
+				emit(c)
+			}
+		}
+	}
+	for _, dp := range []uint64{0, 7} {
+		for _, ip := range []uint64{0, 3} {
+			for _, k := range c10IdxKinds {
+				for _, dest := range c10Dests {
+					c := base
+					c.DataPad, c.IndexPad, c.IdxCodec, c.Full, c.Dest = dp, ip, k.codec, k.full, dest
+					emit(c)
+				}
+			}
+		}
+	}
+}
+
+// c10ExtractReduced: data padding {0,1,7,len+200} x {index, index after 3 bytes of padding, no index}
+// x all destination states; 4096/4096 padding and the sorted+fully-indexed flavour on {absent, same}.
+func c10ExtractReduced(emit func(any), base C10Case) {
+	base.Kind = "extract"
+	for _, p := range []c10Pad{{0, false}, {1, false}, {7, false}, {0, true}} {
+		for _, in := range []struct {
+			ip    uint64
+			noidx bool
+		}{{0, false}, {3, false}, {0, true}} {
+			for _, dest := range c10Dests {
+				c := base
+				c.DataPad, c.DPBig, c.IndexPad, c.NoIndex, c.Dest = p.dp, p.big, in.ip, in.noidx, dest
+				emit(c)
+			}
+		}
+	}
+	for _, dest := range []string{"absent", "same"} {
+		c := base
+		c.DataPad, c.IndexPad, c.Dest = 4096, 4096, dest
+		emit(c)
+		c = base
+		c.IndexPad, c.IdxCodec, c.Full, c.Dest = 3, "sorted", true, dest
+		emit(c)
 	}
 }
 
 func genC10(tier string, emit func(any)) {
+	thorough := tier == "thorough"
+	// the equal-length root lists really are of equal length (and differ)
+	for _, g := range [][]string{{"I3I3", "I14"}, {"I3I5", "I4I4"}, {"I19", "I3I9"}, {"a", "b"}, {"ab", "ba"}} {
+		r0, n0 := c10Roots(g[0])
+		for _, o := range g[1:] {
+			r1, n1 := c10Roots(o)
+			h0, h1 := refcar.EncodeHeader(r0, n0), refcar.EncodeHeader(r1, n1)
+			if len(h0) != len(h1) || bytes.Equal(h0, h1) {
+				panic(fmt.Sprintf("root lists %s and %s: header lengths %d, %d", g[0], o, len(h0), len(h1)))
+			}
+		}
+	}
 	names := []string{"a", "b", "e", "a'", "a0", "i", "ia", "s", "t"}
 	maxLen := 2
-	if tier == "thorough" {
+	if thorough {
 		names = append(names, "k", "i0", "L127", "L128")
 		maxLen = 3
 	}
 	var seqs [][]string
 	kit.Seqs(names, maxLen, func(s []string) { seqs = append(seqs, s) })
-	seqs = append(seqs, []string{"L16383"}, []string{"L16384", "a"})
+	rootLists := []string{"a", "empty", "nil", "ab", "a0"}
+	fullLen := 1 // sequences up to this length get the full wrap/extract products
+	if thorough {
+		fullLen = 2
+	}
 	for _, sq := range seqs {
-		for _, rs := range []string{"a", "empty", "nil", "ab", "a0"} {
-			for _, codec := range []string{"", "sorted"} {
-				for _, sid := range []bool{false, true} {
-					emit(C10Case{Kind: "wrap", Roots: rs, Seq: sq, Codec: codec, SID: sid})
-				}
+		for _, rs := range rootLists {
+			base := C10Case{Roots: rs, Seq: sq}
+			if len(sq) <= fullLen {
+				c10WrapFull(emit, base)
+			} else {
+				c10WrapReduced(emit, base)
 			}
 			if rs != "a" && rs != "nil" && len(sq) > 1 {
 				continue
 			}
-			for _, dp := range []uint64{0, 1, 7} {
-				for _, ip := range []uint64{0, 3} {
-					for _, noidx := range []bool{false, true} {
-						for _, dest := range []string{"absent", "larger", "smaller", "same"} {
-							emit(C10Case{Kind: "extract", Roots: rs, Seq: sq, DataPad: dp, IndexPad: ip, NoIndex: noidx, Dest: dest})
-						}
-					}
-				}
+			if len(sq) <= fullLen {
+				c10ExtractFull(emit, base)
+			} else {
+				c10ExtractReduced(emit, base)
+			}
+		}
+	}
+	// payloads around the varint boundary of a section length, larger than one 32 KiB copy buffer,
+	// larger than two, and an archive of 1100 sections (about 650 KB)
+	bigs := []C10Case{{Seq: []string{"L16383"}}, {Seq: []string{"L16384", "a"}}, {Seq: []string{"L40000"}}, {Seq: []string{"L70000", "a"}}, {Many: 1100}}
+	for i, b := range bigs {
+		for _, rs := range []string{"a", "nil"} {
+			b.Roots = rs
+			if thorough || i == 2 {
+				c10WrapFull(emit, b)
+				c10ExtractFull(emit, b)
+			} else {
+				c10WrapReduced(emit, b)
+				c10ExtractReduced(emit, b)
 			}
 		}
 	}
@@ -255,11 +900,58 @@ func genC10(tier string, emit func(any)) {
 	for _, sq := range rseqs {
 		for _, old := range c10RootOrder {
 			for _, nw := range c10RootOrder {
-				emit(C10Case{Kind: "replace", Roots: old, NewRoots: nw, Seq: sq})
-				for _, dp := range []uint64{0, 7} {
-					for _, noidx := range []bool{false, true} {
-						emit(C10Case{Kind: "replace", Roots: old, NewRoots: nw, Seq: sq, V2: true, DataPad: dp, IndexPad: 3, NoIndex: noidx})
+				for _, mh := range []string{"", "below", "total"} {
+					emit(C10Case{Kind: "replace", Roots: old, NewRoots: nw, Seq: sq, MaxHdr: mh})
+				}
+				for _, p := range []c10Pad{{0, false}, {7, false}, {4096, false}, {0, true}} {
+					for _, noidx := range c10Bools {
+						emit(C10Case{Kind: "replace", Roots: old, NewRoots: nw, Seq: sq, V2: true, DataPad: p.dp, DPBig: p.big, IndexPad: 3, NoIndex: noidx})
 					}
+				}
+				for _, dp := range []uint64{0, 7} {
+					for _, mh := range []string{"below", "total"} {
+						emit(C10Case{Kind: "replace", Roots: old, NewRoots: nw, Seq: sq, V2: true, DataPad: dp, IndexPad: 3, MaxHdr: mh})
+					}
+				}
+			}
+		}
+	}
+	// a replacement on a large archive (the rewrite must not reach past the header)
+	for _, pair := range [][2]string{{"a", "b"}, {"a", "ab"}, {"I3I3", "I14"}} {
+		emit(C10Case{Kind: "replace", Roots: pair[0], NewRoots: pair[1], Many: 1100})
+		emit(C10Case{Kind: "replace", Roots: pair[0], NewRoots: pair[1], Many: 1100, V2: true, DataPad: 7, IndexPad: 3})
+	}
+	// state across calls: every sequence of three replacements applied to one file
+	stepLists := []string{"a", "b", "a0", "ab", "ba", "empty", "nil", "I3I3", "I14", "I3I9"}
+	sseqs := [][]string{{"a"}}
+	if thorough {
+		stepLists = c10RootOrder
+		sseqs = [][]string{{}, {"a"}}
+	}
+	for _, sq := range sseqs {
+		for _, old := range []string{"a", "ab", "I3I3", "I19", "nil"} {
+			for _, s1 := range stepLists {
+				for _, s2 := range stepLists {
+					for _, s3 := range stepLists {
+						st := []string{s1, s2, s3}
+						emit(C10Case{Kind: "replace-seq", Roots: old, Seq: sq, Steps: st})
+						emit(C10Case{Kind: "replace-seq", Roots: old, Seq: sq, Steps: st, V2: true, DataPad: 7, IndexPad: 3})
+						if thorough {
+							emit(C10Case{Kind: "replace-seq", Roots: old, Seq: sq, Steps: st, V2: true, NoIndex: true})
+						}
+					}
+				}
+			}
+		}
+	}
+	// inputs outside "valid" (weak oracle only)
+	for _, sq := range [][]string{{}, {"a"}, {"a", "b"}} {
+		for _, rs := range []string{"a", "nil", "ab"} {
+			emit(C10Case{Kind: "foreign", What: "extract-v1-same", Roots: rs, Seq: sq})
+			emit(C10Case{Kind: "foreign", What: "extract-v1-absent", Roots: rs, Seq: sq})
+			for _, nw := range []string{"a", "b", "ab", "empty"} {
+				for _, dp := range []uint64{0, 7} {
+					emit(C10Case{Kind: "foreign", What: "replace-inner-v2", Roots: rs, NewRoots: nw, Seq: sq, DataPad: dp})
 				}
 			}
 		}
@@ -272,14 +964,24 @@ func init() {
 		Gen:    genC10,
 		Run:    runC10,
 		Decode: kit.DecodeAs[C10Case],
-		Rule: "every CARv1 up to the bound -> WrapV1/WrapV1File (both codecs, identity option) and extract(wrap(x)); every CARv2 (data padding 0/1/7, index padding 0/3, with/without index) -> ExtractV1File into absent/larger/smaller/same destination; " +
-			"ReplaceRootsInFile for every ordered pair of 13 root lists (equal and different encoded sizes, nil vs empty, CIDv0 vs v1) on CARv1 and CARv2; non-trivial = non-empty payload or any replacement",
+		Rule: "WRAP: every CARv1 up to the bound -> WrapV1 over {both index codecs} x {StoreIdentityCIDs} x source {bytes.Reader, *os.File, bare ReadSeeker with 1-byte reads / 1000-byte reads / data+EOF on the last read} x destination {bytes.Buffer, bare Writer, *os.File} x {ZeroLengthSectionAsEOF} x {UseDataPadding(7)+UseIndexPadding(3), which must be ignored}, " +
+			"sources followed by {1 zero, 5 zeros, zero + a further section} under ZeroLengthSectionAsEOF, WrapV1File into {absent, larger pre-existing} destination; oracle: output == pragma ++ header(51, len, 51+len, no reserved bits) ++ source ++ canonical index of the sections (byte-exact; equal-digest runs normalised), strict re-decode, source file untouched, DataReader/IndexReader of the output, ExtractV1File(output) == source. " +
+			"EXTRACT: every CARv2 (data padding {0,1,7,4096,len(payload)+200}, index {none, at +0, +3, +4096}, index codec x FullyIndexed flavours) -> DataReader/IndexReader windows via OpenReader (mmap), NewReader(*os.File), NewReader(bytes.Reader) (content, SeekEnd, ReadAt at/across the end, independence, nil index reader) and ExtractV1File into {absent, larger, smaller, same path, hard link to source, ./ spelling of source, symlink to source}: exactly the payload, source untouched unless it is the destination. " +
+			"REPLACE: ReplaceRootsInFile for every ordered pair of 19 root lists (equal/different encoded size, nil vs empty, CIDv0 vs v1, identity-CID lists of equal total size but different count / per-root size) on CARv1 and CARv2 (data padding {0,7,4096,len+200}, with/without index), with MaxAllowedHeaderSize {unset, below the current header, = header}; every sequence of 3 replacements on one file (state across calls); any error leaves the file byte-identical. " +
+			"Sequences longer than the full-product length use the reduced matrices c10WrapReduced/c10ExtractReduced (quick: len 2; thorough: len 3). Non-trivial = non-empty payload or any replacement",
 		Bound: func(tier string) map[string]any {
+			big := []string{"L16383", "L16384+a", "L40000", "L70000+a", "1100 sections"}
 			if tier == "thorough" {
-				return map[string]any{"seq_len": 3, "alphabet": 13, "root_lists": 13}
+				return map[string]any{"seq_len": 3, "alphabet": 13, "full_product_seq_len": 2, "root_lists": 19, "replace_steps": 3, "step_lists": 19, "big_payloads": big, "big_payload_matrix": "full"}
 			}
-			return map[string]any{"seq_len": 2, "alphabet": 9, "root_lists": 13}
+			return map[string]any{"seq_len": 2, "alphabet": 9, "full_product_seq_len": 1, "root_lists": 19, "replace_steps": 3, "step_lists": 10, "big_payloads": big, "big_payload_matrix": "full for L40000, reduced otherwise"}
 		},
-		Assumptions: []string{"refcar layout is correct"},
+		Assumptions: []string{
+			"refcar layout and canonical index encoding are correct",
+			"scratch directory (tmpfs) supports hard links, symlinks and mmap",
+			"inputs outside 'valid' (ExtractV1File on a CARv1, CARv2 with inner header version 2) are only checked for 'an error leaves the file untouched'",
+			"the order of index records with equal digests in one bucket is not specified: such indexes are compared after normalisation",
+			"FullyIndexed may be set by WrapV1 only when every section is indexed; all other characteristics bits must be zero",
+		},
 	})
 }
